@@ -1,4 +1,5 @@
 import math
+import os
 from abc import ABC, abstractmethod
 from dataclasses import dataclass
 from functools import partial
@@ -11,6 +12,9 @@ from jax import jit, lax, random, vmap
 
 from ad_afqmc import linalg_utils, sr, wavefunctions
 from ad_afqmc.wavefunctions import wave_function
+
+# verification hook (off unless ANKIT76_AD_AFQMC_VERIF=1): see propagator.propagate
+_VERIF_HOOKS = os.environ.get("ANKIT76_AD_AFQMC_VERIF", "0") == "1"
 
 
 @dataclass
@@ -145,6 +149,11 @@ class propagator(ABC):
             * overlaps_new
             / prop_data["overlaps"]
         )
+        if _VERIF_HOOKS and "_verif_imp_fun" in prop_data:
+            # expose the complex importance function and the phase before the phaseless
+            # projection, only into keys the caller pre-seeded (pytree structure unchanged)
+            prop_data["_verif_imp_fun"] = imp_fun
+            prop_data["_verif_theta"] = theta
         imp_fun_phaseless = jnp.abs(imp_fun) * jnp.cos(theta)
         imp_fun_phaseless = jnp.array(
             jnp.where(jnp.isnan(imp_fun_phaseless), 0.0, imp_fun_phaseless)
